@@ -1,9 +1,15 @@
 (* model runner for the correspondence check of C05.
 
    A case is (callback, client programs, schedule). Thread numbers in the
-   schedule: 0 .. n-1 are the clients, n is "the worker goroutine" (whichever
-   start() goroutine is alive; the harness attributes all ops.worker.* points
-   to one participant).
+   schedule: 0 .. n-1 are the clients, n + k is the k-th start() goroutine in
+   order of creation (W k of the model; the harness gives every start()
+   goroutine a participant of its own, created when the goroutine reaches its
+   first yield point, so any number of goroutines alive at once is visible).
+
+   Queued functions of the harness park at a gate as soon as they are entered:
+   a worker in WPopped is, on the implementation, inside fn() at the gate (the
+   op is running); the step WPopped -> WRan is the rest of fn().  Nothing of
+   the queue's state changes between ops.worker.popped and the gate.
 
    Releasing a client that then blocks (Done in wg.Wait, GracefulClose in
    <-busyCh) cannot be undone on the implementation: the goroutine finishes by
@@ -44,12 +50,6 @@ Definition wstatus (w : wpc) : Z :=
   | WFlagged => 5 | WDeferred => 6 | WExit => 0
   end%Z.
 
-Fixpoint live_index (ws : list wpc) (k : nat) : list nat :=
-  match ws with
-  | [] => []
-  | w :: t => (if is_live w then [k] else []) ++ live_index t (S k)
-  end.
-
 Definition memn (x : nat) (l : list nat) : bool := existsb (Nat.eqb x) l.
 
 Fixpoint pack (ds : list Z) : Z :=
@@ -68,23 +68,30 @@ Definition waiter_ids (cs : list cpc) : list nat :=
 Definition ran_seen (s : st) : list nat :=
   filter (fun id => negb (memn id (waiter_ids (clients s)))) (ran s).
 
-(* one number per step:
-   res + 4 * (|ran| + 64 * (qword + 512 * statuses))
+(* per step:
+   [ res + 4 * (|ran| + 64 * (qword + 512 * client statuses));
+     live + 16 * (start() goroutines created so far);
+     [8 * k + status of goroutine k | goroutine k has not returned] ]
    res: 0 nothing to release, 1 ran to its next point / end, 2 blocked;
-   qword = 8 * queue length + 4 * worker exists + 2 * isClosed + flag;
-   statuses = base-8 digits, client 0 lowest, the worker highest *)
+   qword = 8 * queue length + 4 * (busyCh non-nil) + 2 * isClosed + flag;
+   client statuses = base-8 digits, client 0 lowest;
+   live = the model's goroutine counter (Model.Ops.live), on the
+   implementation the number of start() goroutines that exist *)
+Fixpoint live_status (ws : list wpc) (k : nat) : list V :=
+  match ws with
+  | [] => []
+  | w :: t => (if is_live w then [VZ (8 * Z.of_nat k + wstatus w)%Z] else []) ++ live_status t (S k)
+  end.
+
 Definition observe (res : Z) (released : list nat) (s : st) : V :=
   let cs := map (fun ic => cstatus (memn (fst ic) released) (snd ic))
                 (combine (seq 0 (length (clients s))) (clients s)) in
-  let w := match live_index (workers s) 0 with
-           | [] => 0%Z
-           | [j] => match nth_error (workers s) j with Some w => wstatus w | None => 7%Z end
-           | _ => 7%Z          (* two live workers: never matches the implementation *)
-           end in
   let qword := (Z.of_nat (length (queue s)) * 8
                 + b2z (match busy s with Some _ => true | None => false end) * 4
                 + b2z (closed s) * 2 + b2z (flag s))%Z in
-  VZ (res + 4 * (Z.of_nat (length (ran_seen s)) + 64 * (qword + 512 * pack (cs ++ [w]))))%Z.
+  VL [VZ (res + 4 * (Z.of_nat (length (ran_seen s)) + 64 * (qword + 512 * pack cs)))%Z;
+      VZ (Z.of_nat (live s) + 16 * Z.of_nat (length (workers s)))%Z;
+      VL (live_status (workers s) 0)].
 
 (* released clients that became enabled finish *)
 Fixpoint complete (fx : bool) (s : st) (rel : list nat) : st * list nat :=
@@ -110,12 +117,9 @@ Definition one (fx : bool) (s : st) (rel : list nat) (t : nat) : Z * st * list n
              end
          end
   else
-    match live_index (workers s) 0 with
-    | j :: _ => match step fx s (W j) with
-                | Some s' => (1%Z, s', rel)
-                | None => (0%Z, s, rel)
-                end
-    | [] => (0%Z, s, rel)
+    match step fx s (W (t - n)) with
+    | Some s' => (1%Z, s', rel)
+    | None => (0%Z, s, rel)
     end.
 
 Fixpoint go (fx : bool) (s : st) (rel : list nat) (sch : list nat) : list V * st :=
